@@ -11,6 +11,8 @@ def check(ctx):
     rep.floor("typed dict getters / has_* tests", nget, 17)
     eqrule.q5(ctx, rep)
     nm = kinds.check_make_from_dicts(ctx, rep)
+    from rules import hayson as _hk
+    _hk.check_nothing_dropped(ctx, rep, "val/dict.rs", only=lambda b: (b.rec.get("impl") or {}).get("trait") == "haystack::val::dict::HaystackDict")
     rep.floor("make_from_dicts obligations", nm, 3)
     rep.note("make_from_dicts: decided structurally only (every key of every row reaches the name set unfiltered; one column per name; sorted by name; rows moved in) - that the result *is* the sorted union for every input is the composition of these with std's set / sort semantics.")
     return ("Exhaustive over the %d kinds: HaystackKind mirrors Value variant for variant; From<&Value> maps each variant to the like-named kind; "
